@@ -55,6 +55,21 @@ pub fn is_w2_panic(msg: &str) -> bool {
     && (msg.contains("concat_source.rs") || msg.contains("replace_source.rs") || msg.contains("encoder.rs"))
 }
 
+/// Third signature of W2: a ReplaceSource (>= 1 replacement) above a CachedSource above a
+/// unit-mixing subtree.  The replayed chunks no longer reassemble to the text (second signature),
+/// so the byte positions the ReplaceSource cuts at drift into the middle of a multi-byte character
+/// and `Rope::byte_slice` panics.
+pub fn w2_replay_cut_shape(s: &Spec) -> bool {
+  s.any(&|n| match n {
+    Spec::Replace { inner, repls } => !repls.is_empty() && w2_cached_above(inner),
+    _ => false,
+  })
+}
+
+pub fn is_w2_replay_cut_panic(msg: &str) -> bool {
+  msg.contains("byte_slice: rope error") && msg.contains("rope.rs")
+}
+
 /// Result of a guarded library call inside a property.
 pub enum Lib<T> {
   Ok(T),
@@ -68,7 +83,9 @@ pub fn lib<T>(spec: &Spec, what: &str, f: impl FnOnce() -> T) -> Result<Lib<T>, 
   match guard(f) {
     Ok(v) => Ok(Lib::Ok(v)),
     Err(p) => {
-      if !crate::known::strict() && w2_shape(spec) && is_w2_panic(&p) {
+      if !crate::known::strict()
+        && ((w2_shape(spec) && is_w2_panic(&p)) || (w2_replay_cut_shape(spec) && is_w2_replay_cut_panic(&p)))
+      {
         Ok(Lib::Known)
       } else {
         Err(format!("{what}: {p}"))
